@@ -226,10 +226,10 @@ func (g *vfGen) genDets() {
 				seeds = seeds[:fixed+40]
 			}
 		}
-		// compound files carrying each 16-byte literal of the check as the root CLSID (v3 and v4 sectors)
+		// compound files carrying each 8- to 16-byte literal of the check as the root CLSID (v3 and v4 sectors)
 		for _, lh := range fx.Signatures[name] {
 			lit, _ := hex.DecodeString(lh)
-			if len(lit) != 16 {
+			if len(lit) < 8 || len(lit) > 16 { // a whole CLSID, or the leading bytes of one (Xls compares eight)
 				continue
 			}
 			for _, v4 := range []bool{false, true} {
